@@ -92,6 +92,13 @@ def pattern_pool(i):
     mx.ob("pattern_pool", "i: int", "return pattern_pool(i)", pre=["0 <= i < 10"], timeout=60, family="re.Pattern loader on malformed / over-limit patterns",
           bounds="10 patterns incl. a repeat count beyond the engine limit")
     mods.append(mx)
+    # enum / flag loaders: the rejection obligations of C18 (no non-LoadError for any atom or container shape)
+    from props.C18 import build as build_c18
+    for m18 in build_c18(tier, seed).modules:
+        if m18.key in ("c18_enum", "c18_flag"):
+            keep = [o for o in m18.obs if "_rej_" in o.name or o.name.startswith("flag_exact")]
+            m18.obs = keep
+            mods.append(m18)
     return Plan("C04", mods,
                 assumptions=["CrossHair models of builtins (floats as reals: numeric boundary regions are owned by the E2 kernels)"],
                 bounds={}, outside=["strings longer than the bound"])
